@@ -5,3 +5,4 @@ cd "$(dirname "$0")"
 python3 tools/gen_constants.py
 (cd lean && lake build)
 (cd harness && CARGO_NET_OFFLINE=true cargo build --release --offline)
+(cd harness && CARGO_NET_OFFLINE=true cargo build --release --offline --features rayon --target-dir target-rayon)
